@@ -15,12 +15,26 @@ def spec_sx(d, rep):
     return ['none', d[1], bool(rep)]
 
 
-def add_connection(rng, case, n_choices=1, group_prob=0.25):
+def permanent_hosts(case):
+    """nodes derived from the start nodes without passing a choice (present in every architecture, incompatibilities aside)"""
+    seen = list(case['start'])
+    todo = list(case['start'])
+    while todo:
+        x = todo.pop()
+        for s_, t_ in case['edges']:
+            if s_ == x and t_ not in seen:
+                seen.append(t_)
+                todo.append(t_)
+    bad = {n for pair in case.get('incompat', []) for n in pair}
+    return [n for n in seen if n not in bad] or list(case['start'])
+
+
+def add_connection(rng, case, n_choices=1, group_prob=0.25, permanent_only=False):
     """append connector / grouping nodes and connection choices to a selection-choice case (ids are renumbered so that
     plain nodes stay 0..n-1 and choices follow)"""
     case = dict(case)
     n0 = case['n']
-    hosts = list(range(n0))
+    hosts = permanent_hosts(case) if permanent_only else list(range(n0))
     new_nodes = []          # (kind entry)
     kinds = dict(case.get('kinds', {}))
     edges = [list(e) for e in case['edges']]
@@ -229,6 +243,7 @@ def explore_processor(case, seed=0, max_rows=400):
         return {'fail': {'clause': 'model-error', 'detail': sx(res), 'no_input': True}}
     specs = specs_sx(case)
     want = set()
+    want_n = {}            # architecture -> number of admissible assignments that give it (options that are present anyway)
     for s, inst in res[1]:
         inst = sorted(inst[1])
         per_cc = run_dsgm([sx(['conn_sets', specs, inst, cc_sx(cc)]) for cc in case['conn']])
@@ -237,37 +252,88 @@ def explore_processor(case, seed=0, max_rows=400):
         for combo in itertools.product(*[[tuple(sorted(tuple(p) for p in es)) for es in m] for m in per_cc]):
             edges = tuple(sorted(e for es in combo for e in es))
             want.add((tuple(inst), edges))
-    tags = ['proc', 'archs=%d' % min(len(want), 50)]
-    if len(want) > max_rows:
+            want_n[(tuple(inst), edges)] = want_n.get((tuple(inst), edges), 0) + 1
+    tags = ['proc', 'archs=%d' % min(len(want), 50), 'conn=%d' % len(case['conn'])]
+    if sum(want_n.values()) > max_rows:
         return {'skip': 'too-many-architectures', 'tags': tags}
     conn_ids = {int(k) for k, v in case['kinds'].items() if v[0] in ('conn', 'group')}
+    all_insts = [set(inst[1]) for s, inst in res[1]]
+    conditional = any(c not in I for I in all_insts for c in conn_ids)
+    tags.append('connectors:%s' % ('conditional' if conditional else 'permanent'))
+    rng = rng_for(seed, 'connproc', sx([case['n'], case['edges']]))
+
+    def fail(clause, detail):
+        return {'fail': {'clause': clause, 'detail': '%s [connectors=%s]' % (detail, 'conditional' if conditional else 'permanent')}, 'tags': tags}
+
+    def arch_of(inst):
+        nodes = tuple(sorted(b.ident[n] for n in inst.graph.nodes))
+        edges = tuple(sorted((b.ident[e[0]], b.ident[e[1]]) for e in inst.graph.edges(keys=True, data=True)
+                             if get_edge_type(e) == EdgeType.CONNECTS and b.ident[e[0]] in conn_ids and b.ident[e[1]] in conn_ids))
+        return nodes, edges
     try:
         gp = GraphProcessor(b.dsg, encoder_type=SelChoiceEncoderType.COMPLETE)
         X, A = gp.get_all_discrete_x()
     except Exception as e:
         if not want and isinstance(e, (ValueError, RuntimeError)):
             return {'impl': {'error': type(e).__name__}, 'nontrivial': False, 'tags': tags + ['empty-space'], 'queries': []}
-        return {'fail': {'clause': 'processor-raises:%s' % type(e).__name__, 'detail': '%s: %s (model has %d architectures)' % (type(e).__name__, e, len(want))}, 'tags': tags}
+        return fail('processor-raises:%s' % type(e).__name__, '%s: %s (model has %d architectures)' % (type(e).__name__, e, len(want)))
     got = []
-    for xr in X.tolist():
+    rows = X.tolist()
+    first = {}
+    for xr in rows:
         try:
             inst, x2, act = gp.get_graph(xr)
         except Exception as e:
-            return {'fail': {'clause': 'decode-raises:%s' % type(e).__name__, 'detail': 'row %s: %s: %s' % (xr, type(e).__name__, e)}, 'tags': tags}
+            return fail('decode-raises:%s' % type(e).__name__, 'row %s: %s: %s' % (xr, type(e).__name__, e))
         if [float(v) for v in x2] != [float(v) for v in xr]:
-            return {'fail': {'clause': 'enumerated-row-does-not-decode-to-itself', 'detail': 'row %s -> %s' % (xr, list(x2))}, 'tags': tags}
-        nodes = tuple(sorted(b.ident[n] for n in inst.graph.nodes))
-        edges = tuple(sorted((b.ident[e[0]], b.ident[e[1]]) for e in inst.graph.edges(keys=True, data=True)
-                             if get_edge_type(e) == EdgeType.CONNECTS and b.ident[e[0]] in conn_ids and b.ident[e[1]] in conn_ids))
+            return fail('enumerated-row-does-not-decode-to-itself', 'row %s -> %s' % (xr, list(x2)))
         if not inst.final or not inst.feasible:
-            return {'fail': {'clause': 'decoded-instance-not-final-or-infeasible', 'detail': 'row %s final %s feasible %s' % (xr, inst.final, inst.feasible)}, 'tags': tags}
-        got.append((nodes, edges))
-    if len(got) != len(set(got)):
-        dup = [g for g in set(got) if got.count(g) > 1][:2]
-        return {'fail': {'clause': 'two-rows-one-architecture', 'detail': str(dup)}, 'tags': tags}
+            return fail('decoded-instance-not-final-or-infeasible', 'row %s final %s feasible %s' % (xr, inst.final, inst.feasible))
+        a = arch_of(inst)
+        first[tuple(xr)] = a
+        got.append(a)
+    dup = [g for g in set(got) if got.count(g) > want_n.get(g, 1)][:2]
+    if dup:
+        return fail('two-rows-one-architecture', str(dup))
     if set(got) != want:
-        return {'fail': {'clause': 'architectures-differ', 'detail': 'missing %s extra %s (impl %d model %d)' % (
-            sorted(want - set(got))[:2], sorted(set(got) - want)[:2], len(got), len(want))}, 'tags': tags}
-    if gp.get_n_valid_designs() != len(want):
-        return {'fail': {'clause': 'n-valid-designs-differs', 'detail': 'impl %d model %d' % (gp.get_n_valid_designs(), len(want))}, 'tags': tags}
+        return fail('architectures-differ', 'missing %s extra %s (impl %d model %d)' % (
+            sorted(want - set(got))[:2], sorted(set(got) - want)[:2], len(got), len(want)))
+    if gp.get_n_valid_designs() != sum(want_n.values()):
+        return fail('n-valid-designs-differs', 'impl %d model %d' % (gp.get_n_valid_designs(), sum(want_n.values())))
+    # the processor lives on: the same rows in another order must give the same architectures again
+    again = list(rows)
+    rng.shuffle(again)
+    for xr in again[:60]:
+        try:
+            inst, x2, act = gp.get_graph(xr)
+        except Exception as e:
+            return fail('decode-raises:%s' % type(e).__name__, 'row %s (second pass): %s: %s' % (xr, type(e).__name__, e))
+        if arch_of(inst) != first[tuple(xr)]:
+            return fail('second-decode-gives-another-architecture', 'row %s: first %s, then %s' % (xr, first[tuple(xr)], arch_of(inst)))
+    # any vector of the declared space (valid or not), with both encoders: a final feasible architecture of the model, and the
+    # corrected vector decodes to the same architecture
+    if want:
+        for et, label in ((SelChoiceEncoderType.COMPLETE, 'complete'), (SelChoiceEncoderType.FAST, 'fast')):
+            try:
+                gq = gp if label == 'complete' else GraphProcessor(b.dsg, encoder_type=et)
+                dvs = gq.des_vars
+            except Exception as e:
+                return fail('processor-raises:%s' % type(e).__name__, '%s encoder: %s: %s' % (label, type(e).__name__, e))
+            for _ in range(25):
+                x = [rng.randrange(dv.n_opts) if dv.is_discrete else dv.bounds[0] for dv in dvs]
+                try:
+                    inst, x2, act = gq.get_graph(x)
+                except Exception as e:
+                    return fail('decode-raises:%s' % type(e).__name__, '%s encoder, vector %s: %s: %s' % (label, x, type(e).__name__, e))
+                a = arch_of(inst)
+                if not inst.final or not inst.feasible:
+                    return fail('decoded-instance-not-final-or-infeasible', '%s encoder, vector %s final %s feasible %s' % (label, x, inst.final, inst.feasible))
+                if a not in want:
+                    return fail('decoded-architecture-not-in-model', '%s encoder, vector %s -> %s: %s' % (label, x, list(x2), a))
+                try:
+                    inst2, x3, _ = gq.get_graph(list(x2))
+                except Exception as e:
+                    return fail('decode-raises:%s' % type(e).__name__, '%s encoder, corrected vector %s: %s: %s' % (label, list(x2), type(e).__name__, e))
+                if [float(v) for v in x3] != [float(v) for v in x2] or arch_of(inst2) != a:
+                    return fail('corrected-vector-not-a-fixed-point', '%s encoder, %s -> %s -> %s' % (label, x, list(x2), list(x3)))
     return {'impl': {'architectures': len(want)}, 'nontrivial': len(want) >= 2, 'tags': tags, 'queries': []}
